@@ -47,12 +47,14 @@ def host(with_big=True):
         'dn': {'x': [D(1), D(2)], 'y': {'z': [D(3)]}}, 's': 'hello world', 't': (D(1), 'a'), 'lt': [(D(2), 'b'), (D(1), 'a')], 'e': [], 'de': {},
         'al': [x, x, {'k': x}], 'dd': collections.defaultdict(list, {'a': [D(1)]}), 'dbig': {'log': big, 'n': D(1)}, 'n': D(2), 'z': D(0), 'sep': ', ', 'tr': True, 'no': None,
         'lstr': ['1', '22', '333'], 'mixed': [D(1), 'a', None, [D(2)]],
+        # containers that overlap with the ones above (same keys, equal elements): builtins that combine two arguments meet common structure
+        'dn2': {'x': [D(7)], 'y': {'z': [D(8)], 'w': D(9)}, 'q': D(1)}, 'd2': {'a': D(5), 'c': D(6)}, 'll2': [[D(1), D(2)], [D(9)]],
         'hl': HostList([D(3), D(1), D(2), D(5)]), 'hls': HostList(['b', 'a']), 'hd': HostDict({'b': D(2), 'a': D(1)}), 'nhl': [HostList([D(2), D(1)]), HostList([D(9), D(8), D(7)])],
     }
 
 
-C_LIST = ['hl', 'hls', 'nhl', 'nhl[1]', 'l', 'ls', 'll', 'ld', 'lt', 'e', 'al', 'mixed', 'lstr', 'dbig["log"]', 'dn["x"]', 'll[0]', 'items(d)', 'keys(dn)', '[l, l]']
-C_DICT = ['hd', 'd', 'dn', 'de', 'dd', 'dbig', 'dn["y"]', 'ld[0]', '{"q": l}']
+C_LIST = ['hl', 'hls', 'nhl', 'nhl[1]', 'l', 'ls', 'll', 'ld', 'lt', 'e', 'al', 'mixed', 'lstr', 'dbig["log"]', 'dn["x"]', 'll[0]', 'items(d)', 'keys(dn)', '[l, l]', 'll2']
+C_DICT = ['hd', 'd', 'dn', 'de', 'dd', 'dbig', 'dn["y"]', 'ld[0]', '{"q": l}', 'dn2', 'd2', 'dn2["y"]', 'dn', 'dn2']
 C_STR = ['s', '"a,b,c"', 'sep', 'ls[0]', '""']
 C_ANY = C_LIST + C_DICT + C_STR + ['n', 'z', 'tr', 'no', 't', '1.5']
 FN1 = ['(v => v)', '(v => str(v))', '(v => len(str(v)))', 'str', 'len', '(v => [v])', '(v => v == v)', '(v => 0 - len(str(v)))']
@@ -162,16 +164,32 @@ def cases(ctx):
             if n % ctx.nshards == ctx.shard:
                 yield ('call', name, rnd.getrandbits(40), 'typed' if (sigs is not None and j % 4) else 'wild')
             n += 1
+    # entries the pinned table does not have: every single, every ordered pair and sampled triples over a focused list of (overlapping) host containers
+    from lib import gram
+    import itertools
+    focus = ['dn', 'dn2', 'd', 'd2', 'll', 'll2', 'l', 'hl', 'hd', 'dd', 'ld', 'al']
+    for name in [x for x in ctx.nonmut if x not in gram.PINNED_TABLE]:
+        tuples = [(a,) for a in focus] + list(itertools.product(focus, repeat=2)) + rnd.sample(list(itertools.product(focus, repeat=3)), 80)
+        for t in tuples:
+            if n % ctx.nshards == ctx.shard:
+                yield ('callx', '%s(%s)' % (name, ', '.join(t)), rnd.getrandbits(40), 'focused')
+            n += 1
     for _ in range(ctx.scale(900, 12000)):
         yield ('pipe', rnd.getrandbits(40))
     for _ in range(ctx.scale(400, 6000)):
         yield ('direct', rnd.getrandbits(40))
 
 
+# argument shapes for table entries this check has no signature for (entries added to the table later): containers in every position, alone and in pairs
+GENERIC_SIG = [[C_DICT, C_DICT], [C_LIST, C_LIST], [C_DICT, C_DICT, C_DICT], [C_LIST, FN1], [C_DICT, FN2], [C_DICT, KEYS], [C_DICT, KEYS, C_ANY], [C_LIST, KEYS], [C_ANY], [C_LIST, C_ANY, C_ANY]]
+
+
 def call_source(ctx, name, r, mode):
     if mode == 'typed' and name in SIG and SIG[name] is not None:
         sig = r.choice(SIG[name])
         args = [r.choice(pool) for pool in sig]
+    elif name not in SIG and r.random() < 0.75:
+        args = [r.choice(pool) for pool in r.choice(GENERIC_SIG)]
     else:
         args = [r.choice(C_ANY + FN1 + FN2) for _ in range(r.choice([1, 1, 2, 2, 3]))]
     form = r.randrange(3)
@@ -198,12 +216,12 @@ def run_case(case, ctx):
         ctx.count('windows_judged_during_the_repository_tests', W.judged - j0)
         W.taint = []
         return
-    r = random.Random(case[-2] if case[0] == 'call' else case[1])
+    r = random.Random(case[-2] if case[0] in ('call', 'callx') else case[1])
     W = ctx.W
     W.case = case
     W.taint = []
     W.self_mutating = set()
-    names = host(with_big=(case[-2] if case[0] == 'call' else case[1]) % 5 == 0)
+    names = host(with_big=(case[-2] if case[0] in ('call', 'callx') else case[1]) % 5 == 0)
     before_all = {k: heap.fingerprint(v) for k, v in names.items()}
     m0 = W.mutator_calls
     j0 = W.judged
@@ -220,7 +238,9 @@ def run_case(case, ctx):
         except Exception as e:
             ctx.cov('exception_classes', type(e).__name__)
     else:
-        if case[0] == 'call':
+        if case[0] == 'callx':
+            src = case[1]
+        elif case[0] == 'call':
             src = call_source(ctx, case[1], r, case[3])
         else:
             src = r.choice(C_LIST + C_DICT + C_STR)
